@@ -17,6 +17,8 @@ type Output struct {
 // streams of a property: (name, share of n)
 func streams(prop string) []string {
 	switch prop {
+	case "c03":
+		return []string{"finding:lockkey.separator"}
 	case "c18":
 		return []string{"finding:where.node.func", "finding:where.string-literal", "finding:insert.pk-null-or-zero", "finding:insert.auto-batch"}
 	}
@@ -75,7 +77,13 @@ run:
 }
 
 func generate(prop, stream string, r *hutil.Rng, i int) Case {
-	switch prop {
+	switch {
+	case prop == "c03" && stream == "clean" && i%4 == 1:
+		sc, meta := sfuScenario(r, i, stream)
+		return Case{Scenario: sc, Meta: meta}
+	case prop == "c03" && stream == "clean" && i%4 == 2:
+		sc, meta := isoScenario(r, i)
+		return Case{Scenario: sc, Meta: meta}
 	default:
 		sc, meta := buildScenario(r, i, stream, prop)
 		return Case{Scenario: sc, Meta: meta}
